@@ -199,6 +199,52 @@ def cases(tag, tier):
                         yield "pair:%s=%s+%s=%s" % (field_name(b, p1), n1, field_name(b, p2), n2), G.serialise(d, sp)
 
 
+def ctor_params(cls):
+    """names of the keyword parameters of a message class's constructors along its MRO: what an XML attribute of the
+    same name would be bound to, since the parser hands every attribute to the constructor as a keyword"""
+    import inspect
+
+    names = set()
+    for c in cls.__mro__:
+        init = c.__dict__.get("__init__")
+        if init is None:
+            continue
+        for n, prm in inspect.signature(init).parameters.items():
+            if n != "self" and prm.kind in (prm.POSITIONAL_OR_KEYWORD, prm.KEYWORD_ONLY):
+                names.add(n)
+    return names
+
+
+def extra_attr_cases(tag):
+    """every single perturbation of a constrained field, with the element that carries the field given an additional
+    XML attribute named like a constructor parameter that is no protocol attribute (or like an internal flag)"""
+    from mc import lib
+
+    sp0 = G.Spelling()
+    k = G.KINDS[tag]
+    fixed = {"value", "children", "from_device", "from_client"}
+    mextra = sorted((ctor_params(lib.MSG_CLASSES[tag]) | fixed) - {n for n, _ in k.req + k.opt})
+    pextra = []
+    if k.child:
+        p = G.PARTS[k.child]
+        pextra = sorted((ctor_params(lib.PART_CLASSES[k.child]) | fixed) - {n for n, _ in p.req + p.opt})
+    for b in bases(tag)[:1]:
+        for path, kind, perts in constrained_slots(b):
+            on_child = path[0] in ("ca", "ct")
+            for name, val in perts:
+                d = apply(b, path, val)
+                for xn in pextra if on_child else mextra:
+                    for xv in ("", "0"):
+                        if on_child:
+                            ch = list(d[3])
+                            ct, ca, ctext = ch[path[1]]
+                            ch[path[1]] = (ct, ca + ((xn, xv),), ctext)
+                            dd = (d[0], d[1], d[2], tuple(ch))
+                        else:
+                            dd = (d[0], d[1] + ((xn, xv),), d[2], d[3])
+                        yield "field=%s,value=%s,extra-attr=%s" % (field_name(b, path), name, xn), G.serialise(dd, sp0)
+
+
 def all_structure_cases(tag):
     """thorough: every single perturbation on EVERY structure of the kind (all optional-attribute subsets, 0..2 children)"""
     sp0 = G.Spelling()
@@ -287,6 +333,8 @@ def run_shard(shard):
     import itertools as _it
 
     gen = cases(tag, tier)
+    if tag != "@toplevel":
+        gen = _it.chain(gen, extra_attr_cases(tag))
     if tier == "thorough" and tag != "@toplevel":
         gen = _it.chain(gen, all_structure_cases(tag))
     for label, text in gen:
